@@ -139,4 +139,8 @@ def run(ctx):
         R.ob(bool(srt) and all(f.dominates(srt[0].bb, p.bb) for p in ps), "DOM-before", f.where(), "DOM-before|trace_string|sort", "block trace string is concatenated without sorting by transaction index first",
              sample={"rule": "DOM-before", "fn": "get_block_trace_string", "a": "sort_by_key(transaction_index)", "b": "push_str"})
     R.floor("trace_string_body", len(ts), 1)
+    # replies depend on the call history only, not on what an abandoned block left in process memory: state that
+    # survives brc20_clearCaches but not a restart makes two replicas (one of them restarted) disagree
+    import enginerules as ER
+    ER.clause_block_info_reset(R, F, owners=("clear_caches", "finalise_block"))
     return R
